@@ -149,6 +149,7 @@ __CPROVER_ensures(INV(self)) /*@ C01 "consumer step keeps the queue invariant (c
 __CPROVER_ensures(RET == (self->_writer_pos_cache == self->_reader_pos)) /*@ C01 "empty() is true exactly when the consumer sees no unread byte" */
 __CPROVER_ensures(D(self->_writer_pos_cache, self->_reader_pos) <= D(self->g_cons_hb, self->_reader_pos)) /*@ C01 "the consumer is never shown bytes above its acquire frontier (not visible before commit)" */
 __CPROVER_ensures(D(self->g_cons_lb, self->_reader_pos) >= D(OLD(self->g_cons_lb), self->_reader_pos)) /*@ C01 "the coherence bound only grows" */
+__CPROVER_ensures(D(self->_writer_pos_cache, self->_reader_pos) >= D(OLD(self->_writer_pos_cache), self->_reader_pos) && D(self->_writer_pos_cache, self->_reader_pos) <= self->_capacity) /*@ C03 "the bytes visible to the consumer never shrink by looking again and never exceed the capacity (empty)" */
 __CPROVER_ensures(RET ==> self->_reader_pos == OLD(self->g_cons_lb)) /*@ C02 "empty is exact with respect to the coherence lower bound (re-check after a queue switch)" */
 __CPROVER_ensures(self->g_prod_gone ==> (self->_atomic_writer_pos == OLD(self->_atomic_writer_pos) && self->_writer_pos == OLD(self->_writer_pos))) /*@ C02 "a producer that left does not come back" */
 ''',
@@ -161,6 +162,7 @@ __CPROVER_ensures(RET != NULL ==> (RET == self->_storage + (self->_reader_pos & 
 __CPROVER_ensures(self->_reader_pos == OLD(self->_reader_pos) && self->_atomic_reader_pos == OLD(self->_atomic_reader_pos)) /*@ C01 "reading does not release anything" */
 __CPROVER_ensures(RET == NULL ==> self->_reader_pos == OLD(self->g_cons_lb)) /*@ C02 "null is exact with respect to the coherence lower bound" */
 __CPROVER_ensures(D(self->g_cons_lb, self->_reader_pos) >= D(OLD(self->g_cons_lb), self->_reader_pos)) /*@ C02 "the coherence bound only grows (prepare_read)" */
+__CPROVER_ensures(D(self->_writer_pos_cache, self->_reader_pos) >= D(OLD(self->_writer_pos_cache), self->_reader_pos) && D(self->_writer_pos_cache, self->_reader_pos) <= self->_capacity) /*@ C03 "the bytes visible to the consumer never shrink by looking again and never exceed the capacity" */
 __CPROVER_ensures(self->g_prod_gone ==> (self->_atomic_writer_pos == OLD(self->_atomic_writer_pos) && self->_writer_pos == OLD(self->_writer_pos))) /*@ C02 "a producer that left does not come back (prepare_read)" */
 ''',
     'finish_read': r'''
